@@ -150,6 +150,20 @@ def entry_class(a, b):
     return 'payload'
 
 
+PRIORITY = ['cells', 'reduced-levels', 'levels', 'assignment', 'ancestor',
+            'flag', 'inferred-payload', 'probability', 'runner-up',
+            'correlation', 'payload']
+
+
+def worst(found):
+    """the failure whose class comes first in PRIORITY: the signature must
+    not depend on which cell happens to be looked at first"""
+    found = [f for f in found if f]
+    if not found:
+        return None
+    return min(found, key=lambda f: PRIORITY.index(f[0]))
+
+
 def ids_fail(problem, ra, rb):
     ids = list(problem['cell_ids'])
     for name, r in (('A', ra), ('B', rb)):
@@ -170,33 +184,38 @@ def drop_fail(problem, level, ra, rb):
     finer = h[h.index(level) + 1]
     pm = U.parent_map(tree)
     others = [l for l in h if l != level]
-    for a, b in zip(ra, rb):
-        c = a['cell_id']
-        if sorted(k for k in b if k != 'cell_id') != sorted(others):
-            return ('reduced-levels', 'cell %r of the run on the reduced '
-                    'taxonomy has levels %r' % (c, [k for k in b]))
-        if sorted(k for k in a if k != 'cell_id') != sorted(h):
-            return ('levels', 'cell %r of the drop_level run has levels %r'
-                    % (c, [k for k in a]))
-        for l in others:
-            if a[l] != b[l]:
-                return (entry_class(a[l], b[l]),
-                        'cell %r level %r:\n drop_level=%r : %r\n reduced '
-                        'taxonomy: %r' % (c, l, level, a[l], b[l]))
-        child = a[finer].get('assignment')
-        if child not in pm[finer] or \
-                a[level].get('assignment') != pm[finer][child]:
-            return ('ancestor', 'cell %r: dropped level %r = %r is not the '
-                    'parent of %s = %r' % (c, level,
-                                           a[level].get('assignment'), finer,
-                                           child))
-        want = {k: v for k, v in a[finer].items()
-                if not k.startswith('runner_up')}
-        want['assignment'] = pm[finer][child]
-        want['directly_assigned'] = False
-        if a[level] != want:
-            return ('inferred-payload', 'cell %r dropped level %r: %r, '
-                    'expected %r' % (c, level, a[level], want))
+    return worst(drop_cell_fail(a, b, h, others, level, finer, pm)
+                 for a, b in zip(ra, rb))
+
+
+def drop_cell_fail(a, b, h, others, level, finer, pm):
+    c = a['cell_id']
+    if sorted(k for k in b if k != 'cell_id') != sorted(others):
+        return ('reduced-levels', 'cell %r of the run on the reduced '
+                'taxonomy has levels %r' % (c, [k for k in b]))
+    if sorted(k for k in a if k != 'cell_id') != sorted(h):
+        return ('levels', 'cell %r of the drop_level run has levels %r'
+                % (c, [k for k in a]))
+    differ = worst((entry_class(a[l], b[l]),
+                    'cell %r level %r:\n drop_level=%r : %r\n reduced '
+                    'taxonomy: %r' % (c, l, level, a[l], b[l]))
+                   for l in others if a[l] != b[l])
+    if differ:
+        return differ
+    child = a[finer].get('assignment')
+    if child not in pm[finer] or \
+            a[level].get('assignment') != pm[finer][child]:
+        return ('ancestor', 'cell %r: dropped level %r = %r is not the '
+                'parent of %s = %r' % (c, level,
+                                       a[level].get('assignment'), finer,
+                                       child))
+    want = {k: v for k, v in a[finer].items()
+            if not k.startswith('runner_up')}
+    want['assignment'] = pm[finer][child]
+    want['directly_assigned'] = False
+    if a[level] != want:
+        return ('inferred-payload', 'cell %r dropped level %r: %r, '
+                'expected %r' % (c, level, a[level], want))
     return None
 
 
@@ -208,32 +227,36 @@ def flatten_fail(problem, ra, rb):
         return f
     leaf = h[-1]
     anc = dict(U.leaf_paths(tree))
-    for a, b in zip(ra, rb):
-        c = a['cell_id']
-        if [k for k in b if k != 'cell_id'] != [leaf]:
-            return ('reduced-levels', 'cell %r of the run on the one-level '
-                    'taxonomy has levels %r' % (c, [k for k in b]))
-        if sorted(k for k in a if k != 'cell_id') != sorted(h):
-            return ('levels', 'cell %r of the flatten run has levels %r'
-                    % (c, [k for k in a]))
-        if a[leaf] != b[leaf]:
-            return (entry_class(a[leaf], b[leaf]),
-                    'cell %r leaf level %r:\n flatten  : %r\n one-level: %r'
-                    % (c, leaf, a[leaf], b[leaf]))
-        path = anc.get(a[leaf].get('assignment'))
-        if path is None:
-            return ('assignment', 'cell %r: %r is not a leaf'
-                    % (c, a[leaf].get('assignment')))
-        for l in h[:-1]:
-            if a[l].get('assignment') != path[l]:
-                return ('ancestor', 'cell %r: level %r = %r is not the '
-                        'ancestor %r of leaf %r'
-                        % (c, l, a[l].get('assignment'), path[l],
-                           a[leaf]['assignment']))
-            if a[l].get('directly_assigned') is not False:
-                return ('flag', 'cell %r: flattened-away level %r has '
-                        'directly_assigned=%r'
-                        % (c, l, a[l].get('directly_assigned')))
+    return worst(flatten_cell_fail(a, b, h, leaf, anc)
+                 for a, b in zip(ra, rb))
+
+
+def flatten_cell_fail(a, b, h, leaf, anc):
+    c = a['cell_id']
+    if [k for k in b if k != 'cell_id'] != [leaf]:
+        return ('reduced-levels', 'cell %r of the run on the one-level '
+                'taxonomy has levels %r' % (c, [k for k in b]))
+    if sorted(k for k in a if k != 'cell_id') != sorted(h):
+        return ('levels', 'cell %r of the flatten run has levels %r'
+                % (c, [k for k in a]))
+    if a[leaf] != b[leaf]:
+        return (entry_class(a[leaf], b[leaf]),
+                'cell %r leaf level %r:\n flatten  : %r\n one-level: %r'
+                % (c, leaf, a[leaf], b[leaf]))
+    path = anc.get(a[leaf].get('assignment'))
+    if path is None:
+        return ('assignment', 'cell %r: %r is not a leaf'
+                % (c, a[leaf].get('assignment')))
+    for l in h[:-1]:
+        if a[l].get('assignment') != path[l]:
+            return ('ancestor', 'cell %r: level %r = %r is not the '
+                    'ancestor %r of leaf %r'
+                    % (c, l, a[l].get('assignment'), path[l],
+                       a[leaf]['assignment']))
+        if a[l].get('directly_assigned') is not False:
+            return ('flag', 'cell %r: flattened-away level %r has '
+                    'directly_assigned=%r'
+                    % (c, l, a[l].get('directly_assigned')))
     return None
 
 
@@ -242,14 +265,11 @@ def absent_fail(problem, ra, rb):
         f = ids_fail(problem, ra, rb)
         if f:
             return f
-        for a, b in zip(ra, rb):
-            for l in a:
-                if a.get(l) != b.get(l):
-                    return (entry_class(a.get(l), b.get(l)),
-                            'cell %r level %r:\n drop_level=%r: %r\n '
-                            'no drop_level: %r' % (a['cell_id'], l, ABSENT,
-                                                   a.get(l), b.get(l)))
-        return ('payload', 'results differ')
+        found = [(entry_class(a.get(l), b.get(l)),
+                  'cell %r level %r:\n drop_level=%r: %r\n no drop_level: %r'
+                  % (a['cell_id'], l, ABSENT, a.get(l), b.get(l)))
+                 for a, b in zip(ra, rb) for l in a if a.get(l) != b.get(l)]
+        return worst(found) or ('payload', 'results differ')
     return None
 
 
